@@ -173,12 +173,13 @@ PROPS = {
     ),
     "C09": dict(
         level="exploration",
-        level_text="Generated fit problems (1..4 dims, orders 0..4, penalty orders 0..order, irregular knots and abscissae, dense and sparse data, weights over 2^+-5 with exact zeros, smoothing 0..1e6, scalar or per-dimension arguments, shuffled listing) are checked against an independent dense long-double assembly of the normal equations: the returned coefficients must satisfy A c = r componentwise to single precision (sound for any conditioning), agree with the reference minimiser when cond<1e4, and obey the metamorphic relations (spline data reproduced at zero smoothing; zero-weight entries and listing order irrelevant; scalar vs per-dimension arguments and the C wrapper bit-identical).",
+        level_text="Generated fit problems (1..4 dims, orders 0..4, penalty orders 0..order, irregular knots and abscissae, dense and sparse data, weights over 2^+-5 with exact zeros, smoothing 0..1e6, scalar or per-dimension arguments, shuffled listing) are checked against an independent dense long-double assembly of the normal equations: the returned coefficients must satisfy A c = r componentwise to single precision (sound for any conditioning), agree with the reference minimiser when cond<1e4, and obey the metamorphic relations (spline data reproduced at zero smoothing; zero-weight entries and listing order irrelevant; scalar vs per-dimension arguments and the C wrapper bit-identical; tensor-product polynomials of degree below the penalty order in every dimension, sampled inside the fully supported range, reproduced at the data points for every smoothing strength with cond<1e9). Abscissae are listed ascending, descending or shuffled and may coincide with knots.",
         level_note="Well-posedness is by construction (several abscissae per knot interval) and verified: cases whose reference Cholesky fails or whose condition estimate exceeds 1e6 are discarded and counted. The penalty matrix of the reference is built from the textbook derivative-coefficient formula.",
         technique="property-based testing (rapidcheck) with a reference-model oracle (dense long-double normal equations) and metamorphic relations",
-        units=[U("c09_fit", "c09_fit.cpp", quick=1600, thorough=200000, names=["objective", "metamorphic"])],
+        units=[U("c09_fit", "c09_fit.cpp", quick=1600, thorough=200000, names=["objective", "metamorphic", "polynomial"])],
         rule="Non-trivial: ndim>=2, or smoothing>0, or sparse data, or non-unit weights; distinct = hash(orders, penalty orders, smoothing, knots, data, weights).",
-        essential={"objective": {"smoothing>0": 0.3, "sparse": 0.1, "weights:varying": 0.2, "listing:shuffled": 0.2, "compared_with_reference_minimiser": 0.2, "scalar_vs_vector_and_C_compared": 0.2}},
+        essential={"objective": {"smoothing>0": 0.3, "sparse": 0.1, "weights:varying": 0.2, "listing:shuffled": 0.2, "compared_with_reference_minimiser": 0.2, "scalar_vs_vector_and_C_compared": 0.2},
+                   "polynomial": {"smoothing>0": 0.5, "polynomial:non_constant": 0.3, "smoothing>=1e3": 0.15}},
         assumptions=["CHOLMOD/OpenBLAS are uninstrumented system libraries"],
     ),
     "C11": dict(
